@@ -398,3 +398,70 @@ def c01_7(R):
         R.ok("ack-result-merged", u.name, "delegates to OnAckResult::update")
     else:
         R.fail([u.name, "no-OnAckResult::update"], "ProcessIncomingMessageResult::update no longer merges the OnAckResult", where=u.where(), instance="ack-result-merged")
+
+
+@rule("C01.5", ["C01", "C10", "C04"], ["E2", "E6", "E4"], "a packet reaches a reassembly slot only inside the window, only once, and at its own sequence offset",
+      "OutOfOrderQueue::add_remove writes the slot data.get_mut(X) only under is_full() = false, `X >= data.len()` = false for the *same* X that indexes the slot, X = offset + filled_front, and "
+      "ooq_slot_is_default(slot) = true (otherwise AlreadyPresent); in process_incoming_message the ST_DATA arm calls user_rx.add_remove only under `offset < 0` = false with "
+      "offset = msg.header.seq_nr - (last_consumed_remote_seq_nr + 1), passed on as `offset as usize`.")
+def c01_5(R):
+    b = R.body("stream_rx::OutOfOrderQueue::add_remove")
+    gm = [t for t in b.calls() if call_on_field(b, t, ("VecDeque::get_mut",), "OutOfOrderQueue.data")]
+    R.require(len(gm) == 1, "data.get_mut in add_remove")
+    g = gm[0]
+    idx = trace(b, g.args[1], through_casts=False)
+    shape = False
+    if idx.kind == "rv" and idx.root[1].rv.kind == "bin" and idx.root[1].rv.op.startswith("Add"):
+        srcs = {sources_str(b, o) for o in idx.root[1].rv.ops}
+        shape = srcs == {"param:offset", "field:OutOfOrderQueue.filled_front"}
+    if shape:
+        R.ok("slot-index=offset+filled_front", b.name)
+    else:
+        R.fail([b.name, "slot-index-shape", idx.describe()[:60]], "the reassembly slot is no longer indexed by offset + filled_front", where=g.where(), instance="slot-index=offset+filled_front")
+    writes = [s for s in b.stmts() if s.place.proj == ["*"] and (lambda t: t.kind == "call" and t.root[1] is g)(trace(b, Place({"l": s.place.local, "p": []}), extra_transparent=("std::ops::Try::branch", "std::option::Option::ok_or")))]
+    R.floor("slot write in add_remove", len(writes), 1)
+    for s in writes:
+        win = full = fresh = False
+        for c, truth, d, *_ in controlling(b, s.bb):
+            if c.kind == "bin" and c.op in ("Ge", "Lt"):
+                a = trace(b, c.a, through_casts=False)
+                r = trace(b, c.b)
+                same_x = a.kind == idx.kind and a.root[1] is idx.root[1] if a.kind == "rv" else False
+                is_len = r.kind == "call" and call_on_field(b, r.root[1], ("VecDeque::len",), "OutOfOrderQueue.data")
+                if same_x and is_len and ((c.op == "Ge" and not truth) or (c.op == "Lt" and truth)):
+                    win = True
+            if c.kind == "call" and call_matches(c.call, ("stream_rx::OutOfOrderQueue::is_full",)) and not truth:
+                full = True
+            if c.kind == "call" and call_matches(c.call, ("stream_rx::ooq_slot_is_default",)) and truth:
+                st = trace(b, c.call.args[0], extra_transparent=("std::ops::Try::branch", "std::option::Option::ok_or"))
+                if st.kind == "call" and st.root[1] is g:
+                    fresh = True
+        miss = [n for n, v in (("in-window(same index)", win), ("!is_full", full), ("slot-is-default", fresh)) if not v]
+        if miss:
+            R.fail([b.name, "slot-write-not-guarded-by", ",".join(miss)],
+                   "a packet can be stored in the reassembly queue without the guard(s) %s: the window test must use the very index that addresses the slot (else a far-ahead packet yields BugAssemblerMissingSlot and kills the connection) and an occupied slot must not be overwritten" % ", ".join(miss),
+                   where=s.where(), instance="slot-write-guards")
+        else:
+            R.ok("slot-write-guards", b.name, "!is_full && index < data.len() (same index) && slot is default")
+    # caller
+    pim = R.body("stream_dispatch::VirtualSocket::process_incoming_message")
+    calls = [t for t in pim.calls() if call_matches(t, ("stream_rx::UserRx::add_remove",))]
+    R.floor("user_rx.add_remove calls in process_incoming_message", len(calls), 2)
+    for t in calls:
+        ot = trace(pim, t.args[3], through_casts=True)
+        okoff = False
+        if ot.kind == "call" and call_matches(ot.root[1], ("Sub::sub",)):
+            l = trace(pim, ot.root[1].args[0])
+            r, k = affine_trace(pim, ot.root[1].args[1])
+            if l.last_field == "UtpHeader.seq_nr" and r.last_field == "VirtualSocket.last_consumed_remote_seq_nr" and k == 1:
+                okoff = True
+        nonneg = False
+        for c, truth, d, *_ in controlling(pim, t.bb):
+            if c.kind == "bin" and c.op in ("Lt", "Ge") and c.b.kind == "const" and c.b.scalar == 0:
+                a = trace(pim, c.a)
+                if a.kind == "call" and a.root[1] is (ot.root[1] if ot.kind == "call" else None) and ((c.op == "Lt" and not truth) or (c.op == "Ge" and truth)):
+                    nonneg = True
+        if okoff and nonneg:
+            R.ok("slot=sequence-offset", "add_remove(offset = hdr.seq_nr - (last_consumed + 1)) under offset >= 0")
+        else:
+            R.fail([pim.name, "add_remove-offset", "shape=%s nonneg-guard=%s" % (okoff, nonneg)], "a packet is handed to the reassembly queue with an offset that is not its sequence distance from the receive cursor, or without rejecting already-consumed (negative) offsets", where=t.where(), instance="slot=sequence-offset")
